@@ -239,7 +239,7 @@ def _sem_seq(node, env, prefer):
         r = relmodel.calc(t, node[2], lambda v: exprsem.z3_of_ast(node[3], v, bind))
     elif op == "proj":
         r = relmodel.project(t, node[2])
-        r.det, r.dropped = t.det, t.dropped or (set(node[2]) != set(t.cols))
+        r.det, r.dropped, r.sliced = t.det, t.dropped or (set(node[2]) != set(t.cols)), t.sliced
         return r
     elif op == "sel":
         r = relmodel.select(t, lambda v: exprsem.z3_of_ast(node[2], v, bind))
@@ -251,8 +251,9 @@ def _sem_seq(node, env, prefer):
         r = relmodel.sort(t, [((lambda v, e=e: exprsem.z3_of_ast(e, v, bind)), asc) for e, asc in node[2]])
         if sqlm and node[2]:
             cov = _covers_all(node[2], t.cols)
-            r.det = cov or (t.ordered and t.det and not t.dropped)
+            r.det = cov or (t.ordered and t.det and not t.dropped and not t.sliced)
             r.dropped = False if cov else t.dropped
+            r.sliced = False if cov else t.sliced
             return r
         if sqlm and not node[2]:
             r = t
@@ -266,9 +267,11 @@ def _sem_seq(node, env, prefer):
         start = z3.IntVal(0) if node[2] is None else exprsem.zval(node[2], bind)
         stop = None if node[3] is None else exprsem.zval(node[3], bind)
         r = relmodel.slice_(t, start, stop)
+        r.det, r.dropped, r.sliced = t.det, t.dropped, True
+        return r
     else:
         raise TypeError(f"bad program node {node!r}")
-    r.det, r.dropped = t.det, t.dropped
+    r.det, r.dropped, r.sliced = t.det, t.dropped, t.sliced
     return r
 
 
